@@ -46,3 +46,284 @@ pub fn set_tick_hook(f: Option<Box<dyn FnMut()>>) {
 pub fn set_site_hook(f: Option<Box<dyn FnMut(Site)>>) {
     SITE_HOOK.with(|h| *h.borrow_mut() = f);
 }
+
+// ---------------------------------------------------------------------------------------------
+// Cooperative scheduler over real OS threads (C20).
+//
+// A simulated thread runs only while it holds the baton (`current == tid`). At every scheduling
+// point the running thread records (tid, site), draws the next thread from the runnable set with
+// the schedule PRNG and hands the baton over. Blocking only happens at simulator-level `recv`,
+// so the scheduler always knows who can run.
+
+use std::collections::VecDeque;
+use std::sync::Arc;
+use std::sync::Condvar;
+use std::sync::Mutex;
+
+use crate::rng::Rng;
+
+#[derive(Copy, Clone, PartialEq, Eq, Debug)]
+pub enum TState {
+    Runnable,
+    Blocked,
+    Finished,
+}
+
+#[derive(Clone, Debug)]
+pub enum Policy {
+    /// Run the current thread to completion; switch only when it blocks or finishes (lowest tid first).
+    Sequential,
+    /// Uniformly random among runnable threads at every point.
+    Random,
+    /// PCT-style: random priorities, `d` priority change points at random steps.
+    Pct { d: u32, horizon: u64 },
+    /// Continue the current thread; preempt with probability 1/`one_in`.
+    FewPreemptions { one_in: u64 },
+    /// Replay a recorded choice sequence (falls back to Sequential when exhausted or infeasible).
+    Forced(Vec<u8>),
+}
+
+pub struct Inner<M> {
+    pub states: Vec<TState>,
+    pub current: usize,
+    pub rng: Rng,
+    pub policy: Policy,
+    pub steps: u64,
+    pub max_steps: u64,
+    pub chosen: Vec<u8>,
+    pub switches: u64,
+    pub trace_hash: u64,
+    pub site_counts: [u64; 16],
+    pub site_switches: [u64; 16],
+    /// mailboxes[to][from]
+    pub mailboxes: Vec<Vec<VecDeque<M>>>,
+    /// Which sender a blocked thread is waiting for.
+    pub waiting_for: Vec<Option<usize>>,
+    pub abort: bool,
+    pub deadlock: bool,
+    pub forced_divergence: bool,
+    prio: Vec<u64>,
+    change_points: Vec<u64>,
+    /// Threads are released one at a time to run their thread-local destructors.
+    pub exit_turn: Option<usize>,
+    pub last_progress: std::time::Instant,
+    pub last_site: Option<(usize, Site)>,
+}
+
+pub struct Coop<M> {
+    pub inner: Mutex<Inner<M>>,
+    cvs: Vec<Condvar>,
+    pub main_cv: Condvar,
+}
+
+impl<M> Coop<M> {
+    pub fn new(n: usize, seed: u64, policy: Policy, max_steps: u64) -> Arc<Coop<M>> {
+        let mut rng = Rng::new(seed);
+        let prio: Vec<u64> = (0..n).map(|_| 1000 + rng.below(1000)).collect();
+        let change_points = match &policy {
+            Policy::Pct { d, horizon } => (0..*d).map(|_| rng.below((*horizon).max(1))).collect(),
+            _ => Vec::new(),
+        };
+        Arc::new(Coop {
+            inner: Mutex::new(Inner {
+                states: vec![TState::Runnable; n],
+                current: 0,
+                rng,
+                policy,
+                steps: 0,
+                max_steps,
+                chosen: Vec::new(),
+                switches: 0,
+                trace_hash: 0xcbf2_9ce4_8422_2325,
+                site_counts: [0; 16],
+                site_switches: [0; 16],
+                mailboxes: (0..n).map(|_| (0..n).map(|_| VecDeque::new()).collect()).collect(),
+                waiting_for: vec![None; n],
+                abort: false,
+                deadlock: false,
+                forced_divergence: false,
+                prio,
+                change_points,
+                exit_turn: None,
+                last_progress: std::time::Instant::now(),
+                last_site: None,
+            }),
+            cvs: (0..n).map(|_| Condvar::new()).collect(),
+            main_cv: Condvar::new(),
+        })
+    }
+
+    fn choose(g: &mut Inner<M>, me: Option<usize>) -> Option<usize> {
+        let runnable: Vec<usize> = (0..g.states.len()).filter(|t| g.states[*t] == TState::Runnable).collect();
+        if runnable.is_empty() {
+            return None;
+        }
+        let me_runnable = me.filter(|m| runnable.contains(m));
+        let over = g.steps > g.max_steps;
+        let pick = if over {
+            me_runnable.unwrap_or(runnable[0])
+        } else {
+            match &mut g.policy {
+                Policy::Sequential => me_runnable.unwrap_or(runnable[0]),
+                Policy::Random => runnable[g.rng.usize(runnable.len())],
+                Policy::FewPreemptions { one_in } => {
+                    let one_in = *one_in;
+                    match me_runnable {
+                        Some(m) if g.rng.below(one_in.max(1)) != 0 => m,
+                        _ => runnable[g.rng.usize(runnable.len())],
+                    }
+                }
+                Policy::Pct { .. } => {
+                    if g.change_points.contains(&g.steps) {
+                        if let Some(m) = me_runnable {
+                            g.prio[m] = g.rng.below(900);
+                        }
+                    }
+                    *runnable.iter().max_by_key(|t| (g.prio[**t], usize::MAX - **t)).unwrap()
+                }
+                Policy::Forced(choices) => {
+                    let i = g.chosen.len();
+                    match choices.get(i) {
+                        Some(c) if runnable.contains(&(*c as usize)) => *c as usize,
+                        Some(_) => {
+                            g.forced_divergence = true;
+                            me_runnable.unwrap_or(runnable[0])
+                        }
+                        None => me_runnable.unwrap_or(runnable[0]),
+                    }
+                }
+            }
+        };
+        g.chosen.push(pick as u8);
+        Some(pick)
+    }
+
+    /// Block the calling simulated thread until it holds the baton.
+    fn wait_turn<'a>(&'a self, me: usize, mut g: std::sync::MutexGuard<'a, Inner<M>>) -> std::sync::MutexGuard<'a, Inner<M>> {
+        while g.current != me && !g.abort {
+            g = self.cvs[me].wait(g).unwrap_or_else(|e| e.into_inner());
+        }
+        g
+    }
+
+    fn hand_over<'a>(&'a self, me: usize, next: usize, mut g: std::sync::MutexGuard<'a, Inner<M>>) -> std::sync::MutexGuard<'a, Inner<M>> {
+        if next != me {
+            g.switches += 1;
+            g.current = next;
+            self.cvs[next].notify_one();
+        }
+        g
+    }
+
+    /// Let the policy choose which thread runs first.
+    pub fn pick_initial(&self) {
+        let mut g = self.inner.lock().unwrap_or_else(|e| e.into_inner());
+        if let Some(t) = Self::choose(&mut g, None) {
+            g.current = t;
+        }
+    }
+
+    /// First thing a simulated thread does.
+    pub fn start(&self, me: usize) {
+        let g = self.inner.lock().unwrap_or_else(|e| e.into_inner());
+        drop(self.wait_turn(me, g));
+    }
+
+    pub fn yield_point(&self, me: usize, site: Site) {
+        let mut g = self.inner.lock().unwrap_or_else(|e| e.into_inner());
+        if g.abort {
+            return;
+        }
+        g.steps += 1;
+        g.last_progress = std::time::Instant::now();
+        g.last_site = Some((me, site));
+        let s = site as usize;
+        g.site_counts[s % 16] += 1;
+        g.trace_hash = crate::rng::mix(g.trace_hash, ((me as u64) << 8) | s as u64);
+        if let Some(next) = Self::choose(&mut g, Some(me)) {
+            if next != me {
+                g.site_switches[s % 16] += 1;
+                let g = self.hand_over(me, next, g);
+                drop(self.wait_turn(me, g));
+            }
+        }
+    }
+
+    pub fn send(&self, me: usize, to: usize, item: M) {
+        {
+            let mut g = self.inner.lock().unwrap_or_else(|e| e.into_inner());
+            g.mailboxes[to][me].push_back(item);
+            if g.states[to] == TState::Blocked && g.waiting_for[to] == Some(me) {
+                g.states[to] = TState::Runnable;
+                g.waiting_for[to] = None;
+            }
+        }
+        self.yield_point(me, Site::LazyInit);
+    }
+
+    /// Receive from the own mailbox; `None` only if the simulation was aborted (deadlock).
+    pub fn recv(&self, me: usize, from: usize) -> Option<M> {
+        loop {
+            let mut g = self.inner.lock().unwrap_or_else(|e| e.into_inner());
+            if let Some(x) = g.mailboxes[me][from].pop_front() {
+                return Some(x);
+            }
+            if g.abort {
+                return None;
+            }
+            g.states[me] = TState::Blocked;
+            g.waiting_for[me] = Some(from);
+            g.last_progress = std::time::Instant::now();
+            match Self::choose(&mut g, None) {
+                Some(next) => {
+                    let g = self.hand_over(me, next, g);
+                    drop(self.wait_turn(me, g));
+                }
+                None => {
+                    // Nobody can run and we are waiting: deadlock.
+                    g.deadlock = true;
+                    g.abort = true;
+                    for cv in &self.cvs {
+                        cv.notify_all();
+                    }
+                    self.main_cv.notify_all();
+                    return None;
+                }
+            }
+        }
+    }
+
+    /// The simulated thread has finished its workload (but stays alive until released).
+    pub fn finish(&self, me: usize) {
+        let mut g = self.inner.lock().unwrap_or_else(|e| e.into_inner());
+        g.states[me] = TState::Finished;
+        g.last_progress = std::time::Instant::now();
+        if !g.abort {
+            match Self::choose(&mut g, None) {
+                Some(next) => {
+                    g = self.hand_over(me, next, g);
+                }
+                None => {
+                    if g.states.iter().any(|s| *s == TState::Blocked) {
+                        g.deadlock = true;
+                        g.abort = true;
+                        for cv in &self.cvs {
+                            cv.notify_all();
+                        }
+                    }
+                }
+            }
+        }
+        self.main_cv.notify_all();
+        // Wait to be released for exit (thread-local destructors run one thread at a time).
+        while g.exit_turn != Some(me) {
+            g = self.cvs[me].wait(g).unwrap_or_else(|e| e.into_inner());
+        }
+    }
+
+    pub fn release_for_exit(&self, t: usize) {
+        let mut g = self.inner.lock().unwrap_or_else(|e| e.into_inner());
+        g.exit_turn = Some(t);
+        self.cvs[t].notify_all();
+    }
+}
